@@ -76,7 +76,7 @@ class SPESearchNextPoints(View):
     )
     # HACK: Manually force the split of lower and greater points based on user thresholds
     observation_count, dim = one_hot_points_sampled_points.shape
-    if observation_count - sum(metric_constraints_violations) > dim:
+    if observation_count - sum(metric_constraints_violations) > dim and any(metric_constraints_violations):
       spe.lower_points = one_hot_points_sampled_points[~metric_constraints_violations]
       spe.greater_points = one_hot_points_sampled_points[metric_constraints_violations]
       spe.gamma = sum(metric_constraints_violations) / len(metric_constraints_violations)
